@@ -30,6 +30,7 @@ def run(prog, rep, tier='quick'):
     rep.rule('error', 'returned error real, s=2')
     rep.rule('data-matrix', "corrmtx 'covariance': entry (i,k) = x[p+i-k], i < N-p; 'modified': those rows followed by conj x[(i-(N-p))+k] (block maps derived for symbolic N, p)")
     rep.rule('conjugation', 'arcovar under x[n] -> x[n]e^{i theta n}: data matrix entry (i,k) has charge i-k+p, the solution a[j] charge j+1, every inner product sums terms of one charge, the error has charge 0')
+    rep.rule('error-sign', 'in arcovar / modcovar the returned error adds |b|^2 and b^H A a with opposite sign parity relative to the un-negated data matrix and the least-squares solution')
     rep.rule('exact-solve', 'lstsq is called without cond / rcond (no singular-value truncation)')
     rep.rule('marple-normalisation', 'size signature of the returned variances == 1/(N-p)')
     seen = set()
@@ -162,6 +163,29 @@ def run(prog, rep, tier='quick'):
         elif not nconf:
             rep.undecided('conjugation', f.qname, ctx, 'no (a, e) pair returned', loc(f.mod, f.node))
     rep.floor('conjugation contexts', n_q, 2)
+    # ---------------- sign of the cross term in the returned error: e = |b|^2 - b^H A a_ls (a = -a_ls for the model x + sum a_k x = e)
+    n_sg = 0
+    for mod, fname in (('covar', 'arcovar'), ('modcovar', 'modcovar')):
+        f = prog.func(mod, fname)
+        for cplx in (False, True):
+            v, itp = C.run_function(prog, mod, fname, [C.data(cplx, phase=False), Const(3)], {})
+            ctx = 'complex' if cplx else 'real'
+            if blocked(rep, 'error-sign', f.qname, ctx, itp):
+                continue
+            sums = [e for e in itp.events if e[0] == 'sum-signs' and e[6] == f.qname and e[5] == () and e[4] is not TOP and deq(e[4], 2)]
+            n_sg += 1
+            good = [e for e in sums if e[2] != e[3]]
+            if good:
+                rep.proved('error-sign', f.qname, ctx, 'the error combines the energy term and the cross term with opposite sign parity '
+                           '(%s)' % normalise(good[0][1])[:80], loc(f.mod, good[0][1]))
+            elif sums:
+                rep.violation('error-sign', f.qname, '%s [%s]' % (normalise(sums[0][1])[:80], ctx), 'the cross term b^H A a enters the returned '
+                              'error with the same sign parity as the energy term |b|^2 (a negation was moved or dropped between the '
+                              'regressor block used in the solve and the one used here): the value is 2|b|^2 - e_min, not the minimum',
+                              loc(f.mod, sums[0][1]))
+            else:
+                rep.undecided('error-sign', f.qname, ctx, 'no sum of two energy terms found in the error computation', loc(f.mod, f.node))
+    rep.floor('error-sign contexts', n_sg, 4)
     # ---------------- the solve is the plain least-squares solve
     for mod, fname, method in (('covar', 'arcovar', 'covariance'), ('modcovar', 'modcovar', 'modified')):
         f = prog.func(mod, fname)
